@@ -66,10 +66,11 @@ fn main() {
 struct Cx<'tcx> {
     tcx: TyCtxt<'tcx>,
     krate: String,
+    sizes: std::cell::RefCell<std::collections::BTreeMap<String, u64>>,
 }
 
 fn dump_crate<'tcx>(tcx: TyCtxt<'tcx>, name: &str) -> J {
-    let cx = Cx { tcx, krate: name.to_string() };
+    let cx = Cx { tcx, krate: name.to_string(), sizes: Default::default() };
     let mut adts = vec![];
     let mut statics = vec![];
     let mut consts = vec![];
@@ -145,6 +146,10 @@ fn dump_crate<'tcx>(tcx: TyCtxt<'tcx>, name: &str) -> J {
     }
 
     let opts = &tcx.sess.opts;
+    let type_sizes = {
+        let m = cx.sizes.borrow();
+        J::Obj(m.iter().map(|(k, v)| (k.clone(), J::n(*v as i128))).collect())
+    };
     J::obj(vec![
         ("crate", J::s(name)),
         ("rustc", J::s(rustc_interface::util::rustc_version_str().unwrap_or("?"))),
@@ -160,6 +165,7 @@ fn dump_crate<'tcx>(tcx: TyCtxt<'tcx>, name: &str) -> J {
         ),
         ("items", J::Arr(items)),
         ("root", J::Arr(root)),
+        ("type_sizes", type_sizes),
         ("adts", J::Arr(adts)),
         ("statics", J::Arr(statics)),
         ("consts", J::Arr(consts)),
@@ -216,6 +222,28 @@ impl<'tcx> Cx<'tcx> {
 
     fn ty(&self, t: Ty<'tcx>) -> J {
         J::s(self.ty_str(t))
+    }
+
+    /// byte sizes of every fully concrete type mentioned in a local's type (the compiler's own layout)
+    fn note_sizes(&self, t: Ty<'tcx>) {
+        use rustc_middle::ty::TypeVisitableExt;
+        for arg in t.walk() {
+            if let Some(ty_) = arg.as_type() {
+                if ty_.has_param() || ty_.has_escaping_bound_vars() || ty_.has_infer() || ty_.has_aliases() {
+                    continue;
+                }
+                let key = self.ty_str(ty_);
+                if self.sizes.borrow().contains_key(&key) {
+                    continue;
+                }
+                let env = ty::TypingEnv::fully_monomorphized();
+                if let Ok(l) = self.tcx.layout_of(env.as_query_input(ty_)) {
+                    if l.is_sized() {
+                        self.sizes.borrow_mut().insert(key, l.size.bytes());
+                    }
+                }
+            }
+        }
     }
 
     fn vis(&self, did: DefId) -> String {
@@ -275,9 +303,21 @@ impl<'tcx> Cx<'tcx> {
         };
         let t = tcx.type_of(did).instantiate_identity().skip_norm_wip();
         let freeze = t.is_freeze(tcx, ty::TypingEnv::fully_monomorphized());
+        // immutable plain-data statics have a compile-time value, like a const (pointer-free initialisers only)
+        let mut value = J::Null;
+        if !mutable && freeze && !tcx.is_thread_local_static(did) {
+            if let Ok(alloc) = tcx.eval_static_initializer(did) {
+                let a = alloc.inner();
+                if a.provenance().ptrs().is_empty() {
+                    let bytes = a.inspect_with_uninit_and_ptr_outside_interpreter(0..a.len());
+                    value = self.decode(bytes, 0, t);
+                }
+            }
+        }
         J::obj(vec![
             ("path", J::s(self.path(did))),
             ("ty", self.ty(t)),
+            ("value", value),
             ("mutable", J::Bool(mutable)),
             ("nested", J::Bool(nested)),
             ("thread_local", J::Bool(tcx.is_thread_local_static(did))),
@@ -577,6 +617,7 @@ impl<'tcx> Cx<'tcx> {
             }
         }
         for (l, d) in body.local_decls.iter_enumerated() {
+            self.note_sizes(d.ty);
             let mut v = vec![("ty", self.ty(d.ty)), ("mut", J::Bool(d.mutability.is_mut()))];
             if let Some(n) = &names[l.as_usize()] {
                 v.push(("name", J::s(n.clone())));
